@@ -23,7 +23,15 @@ library performs, by category:
              `inlineCount` (or `capacity`) handles; released by `clear_internal` / `operator<<`,
 * `rq`     — allocations of the thread-local `std::deque` ready queue of `coro_queue` (libstdc++: map + first node
              on the thread's first use, one 512-byte node per 64 enqueues, map re-allocation) — the listed finding,
-* `other`  — never produced by the model.
+* `other`  — never produced by the model,
+* `thrown` — (token `Tok.thrown`) the exception object of a `throw` / the dependent exception of a `rethrow_exception`
+             (`__cxa_allocate_exception` → `malloc`, not `operator new`).  The library throws in exactly one situation of a core
+             program: user code reads (`co_await`, `wait()`) a future that was resolved *without a value* (by an exception, or
+             dropped) — `future::value()` reports that to the reader by `rethrow_exception` / `throw await_canceled_exception()`.
+             That object is the caller's (the report of an error to the code that asked), it is not an allocation "of their own"
+             of the primitives; the token therefore names its receiver.  The model has no token for an exception that is thrown
+             and swallowed inside the library: the current code has no such path (stepping an exhausted generator is answered by
+             the `done()` pre-check of `next_awt::operator bool`, not by `no_more_values_exception`).
 
 Everything that is not a log (`out`) or a ghost counter (`peak`, `pushes`, `pops`) is control state.  The ghost
 fields are never consulted by the control flow.  Suspend points that are locals of library functions live in the
@@ -65,6 +73,7 @@ inductive Act where
   | pause
   | gstep (g : Nat)               -- `if (G.next())`
   | gstepAw (g : Nat)             -- `co_await G.next()`
+  | resumed (i : Nat)             -- (never written by a user; pushed by `await` when it suspends) `await_resume` of `co_await F_i`
   deriving DecidableEq, Repr, Inhabited
 
 /-- what a coroutine reports when it executes an action -/
@@ -81,6 +90,8 @@ inductive Tok where
   | cb (i : Nat)                             -- the callback awaiter of future `i` fired
   | alloc (c : Cat) (n : Nat) (held : Nat)   -- allocation; `held` (ghost) = handles held by the growing suspend point
   | free (c : Cat) (n : Nat)                 -- release
+  | thrown (who : Option Nat) (i : Nat)      -- an exception object was allocated and thrown TO user code (coroutine `who`, or
+                                             -- ordinary code) that read future `i`, which holds no value
   deriving DecidableEq, Repr, Inhabited
 
 inductive Waiter where
@@ -358,6 +369,17 @@ def resolve (s : State) (i : Nat) (k : Kind) : State :=
 def subscribe (s : State) (i : Nat) (w : Waiter) : State :=
   setFut s i { s.futs i with chain := w :: (s.futs i).chain }
 
+/-- the future was resolved without a value: by an exception, or its promise was dropped -/
+def Outcome.bad : Outcome → Bool
+  | .exc => true
+  | .canceled => true
+  | _ => false
+
+/-- `future::value()` called by user code `who` (`await_resume` of `co_await F_i`, `F_i.wait()`): when the future holds no
+value it throws (`rethrow_exception` / `throw await_canceled_exception()`), which allocates the exception object -/
+def throwTo (s : State) (who : Option Nat) (i : Nat) : State :=
+  if (s.futs i).outcome.bad then emit s (Tok.thrown who i) else s
+
 /-! ### mutex -/
 
 def clearOwn (s : State) (m : Nat) : Option Nat → State
@@ -377,6 +399,12 @@ def genStep (g : Gen) : Gen × Option Nat :=
   else if g.next < g.n then ({ g with next := g.next + 1 }, some g.next)
   else ({ g with done := true }, none)
 
+/-- a whole range-for pass (`begin()`, `operator++` until `end()`): steps until the generator reports no more items -/
+def genAll (g : Gen) : Gen := if g.done then g else { g with next := max g.next g.n, done := true }
+
+/-- number of items such a pass sees -/
+def genLeft (g : Gen) : Nat := if g.done then 0 else g.n - g.next
+
 /-- a step of generator `g` made by coroutine `j` through action `a` -/
 def coGenStep (s : State) (j g : Nat) (a : Act) : State :=
   if (s.gens g).exist then setGen (emit s (.act j (.stepped a (genStep (s.gens g)).2))) g (genStep (s.gens g)).1
@@ -392,8 +420,11 @@ def awaitTmp (s : State) (j : Nat) : State × Option Nat :=
 
 def actStep (s : State) (j : Nat) : Act → State × Option Nat
   | .await i =>
-      if (s.futs i).alive && !(s.futs i).ready then (subscribe (emit s (.act j (.did (.await i)))) i (.coro j), none)
+      if (s.futs i).alive && !(s.futs i).ready then
+        (subscribe (setScript (emit s (.act j (.did (.await i)))) j (.resumed i :: (s.cos j).script)) i (.coro j), none)
+      else if (s.futs i).alive then (throwTo (emit s (.act j (.did (.await i)))) (some j) i, some j)
       else (emit s (.act j (.did (.await i))), some j)
+  | .resumed i => (throwTo s (some j) i, some j)
   | .res i k =>
       if (s.futs i).existed then (dropActive (resolve (emit s (.act j (.did (.res i k)))) i k), some j)
       else (emit s (.act j (.did (.res i k))), some j)
@@ -497,6 +528,7 @@ inductive Op where
   | bx (i : Nat)                     -- destroy `B_i` (drops the promise if it was never invoked)
   | gen (g : Nat) (heap : Bool) (n : Nat)
   | gs (g : Nat) (viaFuture : Bool)
+  | gr (g : Nat)                     -- `for (v : G_g)`: a whole range-for pass over whatever is left
   | gd (g : Nat)
   | fin
   deriving Inhabited
@@ -580,7 +612,8 @@ def step (fuel : Nat) (s : State) : Op → State
   | .resX i => if (s.futs i).existed then dropNormal fuel (resolve s i .d) else s
   | .cb i => if (s.futs i).alive && !(s.futs i).ready then subscribe s i .cb else s
   | .bs i => if (s.futs i).alive && !(s.futs i).ready then subscribe s i .sync else s
-  | .bw _ => s
+  -- `F_i.wait()` by ordinary code: `value()` throws when the future holds no value
+  | .bw i => if (s.futs i).alive && (s.futs i).ready then throwTo s none i else s
   | .del i => if (s.futs i).alive && (s.futs i).ready then setFut s i { s.futs i with alive := false } else s
   | .co j heap bind script =>
       if (s.cos j).st = .unborn && bindOk s bind then opCo fuel s j heap bind script
@@ -609,6 +642,7 @@ def step (fuel : Nat) (s : State) : Op → State
   -- /repo fix 191263e), i.e. the first such step on a thread that never used its ready queue constructs the deque; a generator
   -- that is done is not resumed (`no_more_values`)
   | .gs g _ => if (s.gens g).exist then setGen (genTouch s g) g (genStep (s.gens g)).1 else s
+  | .gr g => if (s.gens g).exist then setGen (genTouch s g) g (genAll (s.gens g)) else s
   | .gd g => killGen s g
   | .fin => opFin fuel s
 
@@ -622,6 +656,7 @@ def run (fuel : Nat) (fresh : Bool) (prog : List Op) : State := prog.foldl (step
 def isEv : Tok → Bool
   | .alloc .. => true
   | .free .. => true
+  | .thrown .. => true
   | _ => false
 
 /-- the allocation log, oldest first -/
